@@ -485,11 +485,17 @@ class PseudoNetCDFFile(PseudoNetCDFSelfReg, object):
         x = time.astype(tu).astype('d')
         # Convert file's time to numpy datetime at resolution
         xp = mytimes.astype(tu).astype('d')
+        # np.interp needs increasing abscissae: a descending time axis is
+        # looked up through the reversed arrays
+        if xp.size > 1 and xp[0] > xp[-1]:
+            ixp, iidx = xp[::-1], idx[::-1]
+        else:
+            ixp, iidx = xp, idx
 
         # Use interpolation methods with no bounding for nearest
         # and bounds_close
         if ttype in ('nearest', 'bounds_close'):
-            out = np.interp(x, xp, idx)
+            out = np.interp(x, ixp, iidx)
             if index:
                 imin = 0
                 imax = idx[-1] + (0 if ttype == 'nearest' else -1)
@@ -500,7 +506,7 @@ class PseudoNetCDFFile(PseudoNetCDFSelfReg, object):
                     out = np.floor(out).astype('i')
         # Use interpolation methods with bounding for nearest
         else:
-            out = np.interp(x, xp, idx, left=np.nan, right=np.nan)
+            out = np.interp(x, ixp, iidx, left=np.nan, right=np.nan)
             if index:
                 out = np.ma.masked_less(np.ma.floor(out).astype('i'), 0)
 
